@@ -3,13 +3,14 @@ import copy
 import itertools
 from collections.abc import Iterator
 from dataclasses import dataclass
-from typing import ClassVar, NamedTuple
+from typing import Any, ClassVar, NamedTuple
 
 from guppylang_internals.ast_util import (
     AstVisitor,
     ContextAdjuster,
     find_nodes,
     loop_controls_in_loop,
+    name_nodes_in_ast,
     return_nodes_in_ast,
     set_location_from,
     template_replace,
@@ -189,8 +190,9 @@ class CFGBuilder(AstVisitor[BB | None]):
         bb.statements.append(node)
         return bb
 
-    def _build_assign_target(self, target: ast.expr, bb: BB) -> BB:
-        """Builds the expressions nested inside an assignment target.
+    def _assign_target_operands(self, target: ast.expr) -> list["Operand"]:
+        """Returns the expressions nested inside an assignment target, in the order in
+        which Python evaluates them.
 
         The index of a subscript target (and the object that is subscripted or whose
         attribute is set) are ordinary expressions that may contain control-flow, e.g.
@@ -199,46 +201,61 @@ class CFGBuilder(AstVisitor[BB | None]):
         """
         match target:
             case ast.Subscript():
-                target.value, bb = ExprBuilder.build(target.value, self.cfg, bb)
-                target.slice, bb = ExprBuilder.build(target.slice, self.cfg, bb)
+                return [(target, "value"), (target, "slice")]
             case ast.Attribute():
-                target.value, bb = ExprBuilder.build(target.value, self.cfg, bb)
+                return [(target, "value")]
             case ast.Tuple(elts=elts) | ast.List(elts=elts):
-                for elt in elts:
-                    bb = self._build_assign_target(elt, bb)
+                return [op for elt in elts for op in self._assign_target_operands(elt)]
             case ast.Starred(value=value):
-                bb = self._build_assign_target(value, bb)
-        return bb
+                return self._assign_target_operands(value)
+        return []
 
     def visit_Assign(self, node: ast.Assign, bb: BB, jumps: Jumps) -> BB | None:
         # Python evaluates the right-hand side first, then the targets left to right
-        node.value, bb = ExprBuilder.build(node.value, self.cfg, bb)
-        for target in node.targets:
-            bb = self._build_assign_target(target, bb)
-        bb.statements.append(node)
-        return bb
+        builder = ExprBuilder(self.cfg, bb)
+        builder.build_operands(
+            [
+                (node, "value"),
+                *(op for t in node.targets for op in self._assign_target_operands(t)),
+            ]
+        )
+        builder.bb.statements.append(node)
+        return builder.bb
 
     def visit_AugAssign(self, node: ast.AugAssign, bb: BB, jumps: Jumps) -> BB | None:
-        # For augmented assignments the target is evaluated before the right-hand side
-        bb = self._build_assign_target(node.target, bb)
-        # `xs[i] += v` is later expanded to `xs[i] = xs[i] + v`, which mentions the index
-        # twice. Store the index in a temporary so that it is only evaluated once.
-        if isinstance(node.target, ast.Subscript) and not isinstance(
-            node.target.slice, ast.Name | ast.Constant
+        builder = ExprBuilder(self.cfg, bb)
+        stmt: ast.AugAssign | ast.Assign = node
+        if isinstance(node.target, ast.Name) and node.target.id in assigned_names(
+            node.value
         ):
-            tmp = next(tmp_vars)
-            ExprBuilder._tmp_assign(tmp, node.target.slice, bb)
-            node.target.slice = make_var(tmp, node.target.slice)
-        node.value, bb = ExprBuilder.build(node.value, self.cfg, bb)
-        bb.statements.append(node)
-        return bb
+            # `x += (x := 5)`: Python reads the old value of `x` before it evaluates the
+            # right-hand side. Save it and turn the statement into `x = old + rhs`
+            old = builder.bind(with_loc(node.target, ast.Name(node.target.id, ast.Load())))
+            builder.build_operands([(node, "value")])
+            value = with_loc(node, ast.BinOp(left=old, op=node.op, right=node.value))
+            stmt = with_loc(node, ast.Assign(targets=[node.target], value=value))
+        else:
+            # For augmented assignments the target is evaluated before the right-hand
+            # side
+            targets = self._assign_target_operands(node.target)
+            builder.build_operands(targets)
+            # `xs[i] += v` is later expanded to `xs[i] = xs[i] + v`, which mentions the
+            # index twice. Store the index in a temporary so that it is only evaluated
+            # once.
+            if isinstance(node.target, ast.Subscript) and not isinstance(
+                node.target.slice, ast.Name | ast.Constant
+            ):
+                node.target.slice = builder.bind(node.target.slice)
+            builder.build_operands([(node, "value")], earlier=targets)
+        builder.bb.statements.append(stmt)
+        return builder.bb
 
     def visit_AnnAssign(self, node: ast.AnnAssign, bb: BB, jumps: Jumps) -> BB | None:
-        if node.value is not None:
-            node.value, bb = ExprBuilder.build(node.value, self.cfg, bb)
-        bb = self._build_assign_target(node.target, bb)
-        bb.statements.append(node)
-        return bb
+        builder = ExprBuilder(self.cfg, bb)
+        value = [(node, "value")] if node.value is not None else []
+        builder.build_operands([*value, *self._assign_target_operands(node.target)])
+        builder.bb.statements.append(node)
+        return builder.bb
 
     def visit_Expr(self, node: ast.Expr, bb: BB, jumps: Jumps) -> BB | None:
         # This is an expression statement where the value is discarded
@@ -484,6 +501,77 @@ class ExprBuilder(ast.NodeTransformer):
         lhs = make_var(tmp_name, value)
         bb.statements.append(make_assign([lhs], value))
 
+    def bind(self, value: ast.expr) -> ast.Name:
+        """Evaluates an (already built) expression now, by assigning it to a fresh
+        temporary variable in the current BB. Returns the temporary."""
+        tmp = next(tmp_vars)
+        self._tmp_assign(tmp, value, self.bb)
+        return make_var(tmp, value)
+
+    def build_operands(
+        self,
+        operands: list["Operand"],
+        earlier: list["Operand"] | None = None,
+        last_is_stored: bool = False,
+    ) -> None:
+        """Builds a sequence of expressions that Python evaluates one after the other,
+        in place.
+
+        Building an operand that contains control-flow or an assignment expression
+        emits statements and BBs that run *before* the residual expressions of the
+        operands to its left. That must not be observable: before such an operand is
+        built, every earlier operand whose residual still has to make a call (if the
+        new operand makes one too) or reads a variable that the new operand assigns is
+        evaluated into a temporary. For example, `g() + (h() if c() else k())` becomes
+        `%tmp0 = g()`, then the branching on `c()`, then `%tmp0 + %tmp1`.
+
+        `earlier` are operands that were built before. `last_is_stored` says that the
+        caller is going to store the last operand in a temporary right after it is
+        built.
+        """
+        done = list(earlier or [])
+        for i, (container, key) in enumerate(operands):
+            child = _get_operand(container, key)
+            stored = last_is_stored and i == len(operands) - 1
+            if done and (stored or lifts_control_flow(child)):
+                calls = has_call(child)
+                written = assigned_names(child)
+                for prev in done:
+                    residual = _get_operand(*prev)
+                    if isinstance(residual, ast.Starred):
+                        continue
+                    if (calls and has_call(residual)) or any(
+                        x in written for x in read_names(residual)
+                    ):
+                        _set_operand(*prev, self.bind(residual))
+            _set_operand(container, key, self.visit(child))
+            done.append((container, key))
+
+    def _visit_children(self, node: ast.AST) -> ast.AST:
+        """Like `NodeTransformer.generic_visit`, but keeps Python's left-to-right
+        evaluation order of the child expressions (see `build_operands`)."""
+        done: list[Operand] = []
+        for field, value in ast.iter_fields(node):
+            slots: list[Operand] = (
+                [(value, i) for i in range(len(value))]
+                if isinstance(value, list)
+                else [(node, field)]
+            )
+            for container, key in slots:
+                child = _get_operand(container, key)
+                if not isinstance(child, ast.AST):
+                    continue
+                if not isinstance(child, ast.expr):
+                    # Operators, contexts, keywords, ...
+                    _set_operand(container, key, self.visit(child))
+                    continue
+                self.build_operands([(container, key)], earlier=done)
+                # The callee of a call is looked up, not evaluated: never store it in a
+                # temporary
+                if not (isinstance(node, ast.Call) and field == "func"):
+                    done.append((container, key))
+        return node
+
     def visit_Name(self, node: ast.Name) -> ast.Name:
         return node
 
@@ -560,8 +648,8 @@ class ExprBuilder(ast.NodeTransformer):
             merge_bb = self.cfg.new_bb(true_bb, false_bb)
             self.bb = merge_bb
             return make_var(tmp, node)
-        # For all other expressions, just recurse deeper with the node transformer
-        return super().generic_visit(node)
+        # For all other expressions, just recurse deeper
+        return self._visit_children(node)
 
 
 class BranchBuilder(AstVisitor[None]):
@@ -723,6 +811,60 @@ def desugar_comprehension(
 
     elt = builder.visit(elt)
     return gens, elt
+
+
+#: An expression slot inside an AST node: `(node, field)` or `(list, index)`
+Operand = tuple[Any, Any]
+
+
+def _get_operand(container: Any, key: Any) -> Any:
+    return container[key] if isinstance(container, list) else getattr(container, key)
+
+
+def _set_operand(container: Any, key: Any, value: Any) -> None:
+    if isinstance(container, list):
+        container[key] = value
+    else:
+        setattr(container, key, value)
+
+
+def lifts_control_flow(node: ast.AST) -> bool:
+    """Checks if building an expression emits statements or BBs, i.e. if it contains a
+    conditional expression, a short-circuit expression, or an assignment expression."""
+    return bool(
+        find_nodes(
+            lambda n: isinstance(n, ast.IfExp | ast.NamedExpr)
+            or is_short_circuit_expr(n),
+            node,
+        )
+    )
+
+
+def has_call(node: ast.AST) -> bool:
+    """Checks if an expression contains a call."""
+    return bool(find_nodes(lambda n: isinstance(n, ast.Call), node))
+
+
+def assigned_names(node: ast.AST) -> list[str]:
+    """Returns the names assigned by assignment expressions inside an expression."""
+    return [
+        n.target.id
+        for n in find_nodes(lambda n: isinstance(n, ast.NamedExpr), node)
+        if isinstance(n, ast.NamedExpr) and isinstance(n.target, ast.Name)
+    ]
+
+
+def read_names(node: ast.AST) -> list[str]:
+    """Returns the names of the variables read by an expression (the name of a called
+    function is not a variable read)."""
+    callees = [
+        n.func
+        for n in find_nodes(lambda n: isinstance(n, ast.Call), node)
+        if isinstance(n, ast.Call)
+    ]
+    return [
+        n.id for n in name_nodes_in_ast(node) if not any(n is c for c in callees)
+    ]
 
 
 def is_functional_annotation(stmt: ast.stmt) -> bool:
